@@ -4,7 +4,9 @@ usage: confirm_seeded.py <PROP> <A|B> "<what it needs to manifest>" "<detected-b
 """
 import sys, os, re, subprocess, json, shutil
 prop, m, needs, detected = sys.argv[1:5]
-wt = '/tmp/mut/%s' % prop
+base = sys.argv[5] if len(sys.argv) > 5 else '/tmp/mut'
+idletter = sys.argv[6] if len(sys.argv) > 6 else m
+wt = '%s/%s' % (base, prop)
 env = dict(os.environ, GOFLAGS='-mod=mod', GOPROXY='off', GOSUMDB='off', GOTOOLCHAIN='local')
 def run(cmd, **kw):
     r = subprocess.run(cmd, shell=True, cwd=wt, env=env, capture_output=True, text=True, **kw)
@@ -30,7 +32,7 @@ ok = steps['apply'] == 0 and steps['build_with_mutant'] == 0 and steps['suite_wi
 print(prop, m, 'CONFIRMED' if ok else 'NOT CONFIRMED', steps)
 if not ok:
     print(out1[-600:], out2[-600:]); sys.exit(1)
-sid = '%s-%s' % (prop, m)
+sid = '%s-%s' % (prop, idletter)
 d = '/verif/seeded/%s' % sid
 os.makedirs(d, exist_ok=True)
 shutil.copy(patch, d + '/patch.diff')
